@@ -45,7 +45,17 @@ Choices ==
   \cup {<<"TextArr", a>> : a \in {<<>>, <<Payload(0), Payload(254)>>, <<Payload(1), Payload(0), Payload(2)>>}}
   \cup {<<"LongArr", a>> : a \in {<<>>, <<Neg(P2(39))>>}}
 
-MCNext == \/ \E c \in Choices : Len(prog) < MaxLen /\ W(c[1], c[2])
+\* A payload at the 16-bit / 32-bit length thresholds (thorough configuration) makes a state of several megabytes in
+\* TLC (buf, prog and rd each hold it).  What follows or precedes such an item matters only through its own framing, so
+\* a heavy item is paired with heavy items and with a set of partners that covers every framing kind (fixed cell,
+\* variable decimal, counted arrays), not with every boundary value of every fixed width: the run then fits a machine
+\* that is shared (the unrestricted pairing needed a 16 GB heap and was killed by the kernel's OOM killer).
+Heavy(c) == c[1] \in {"Blob", "Text", "ShortBytes", "IntBytes", "TextShort"} /\ Len(c[2]) > 1000
+Partner(c) == Heavy(c) \/ c[1] \in {"Bool", "Byte", "Decimal", "Float", "IntArr", "TextArr", "Raw"}
+Pairable(c) == \A i \in 1..Len(prog) :
+                  LET d == <<prog[i][1], prog[i][2]>> IN (Heavy(c) => Partner(d)) /\ (Heavy(d) => Partner(c))
+
+MCNext == \/ \E c \in Choices : Len(prog) < MaxLen /\ Pairable(c) /\ W(c[1], c[2])
           \/ (Len(prog) > 0 /\ Open)
           \/ R
 
